@@ -34,6 +34,7 @@ CONF = {
                 fuzz=[dict(name="fz_session", quick_runs=1200, thorough_runs=60000, max_len=256, jobs=6)]),
     "C12": dict(level="exploration", workers=16, quick=dict(cases=1200, size=70), thorough=dict(cases=12000, size=100)),
     "C10": dict(level="exploration", workers=16, quick=dict(cases=2500, size=60), thorough=dict(cases=15000, size=100)),
+    "C14": dict(level="exploration", workers=16, quick=dict(cases=1200, size=60), thorough=dict(cases=8000, size=100)),
     "C13": dict(level="exploration", workers=16, quick=dict(cases=2000, size=60), thorough=dict(cases=8000, size=100)),
     "C15": dict(level="exploration", workers=16, quick=dict(cases=3000, size=80), thorough=dict(cases=15000, size=100)),
     "C17": dict(level="exploration", workers=16, quick=dict(cases=8000, size=100), thorough=dict(cases=150000, size=150),
